@@ -193,7 +193,10 @@ ID_ORDERS = ((0, 1), (1, 0), (0, 1, 2), (0, 2, 1), (1, 0, 2), (1, 2, 0), (2, 0, 
              # larger ID sets (indexes into (A, B, C_ID, E_ID, I_ID)): two IDs sharing an APID, the idle APID
              (0, 1, 3, 4), (4, 3, 1, 0), (3, 0, 4, 1, 2),
              # two IDs that spell a third octet pair where they meet in a list (indexes 5, 6 = F_ID, H_ID), in both orders
-             (5, 6), (6, 5), (0, 5, 6, 1))
+             (5, 6), (6, 5), (0, 5, 6, 1),
+             # the same ID listed twice (IDs taken from the headers of two packets of one APID)
+             (0, 0, 1), (1, 0, 1, 0))
+DUP_ORDERS = (14, 15)
 STRADDLE_ORDERS = (11, 12, 13)
 
 
@@ -830,6 +833,15 @@ def shards(tier):
             items.append({"kind": "sched", "names": names, "mode": "all", "kcut": 0, "order": order, "cost": 3 ** (n - 1)})
         else:
             items.append({"kind": "sched", "names": names, "mode": "cuts", "kcut": 2 if tier == "quick" else 3, "order": order, "cost": n ** 2})
+    for names in stream_names(2):
+        n = len(build_stream(names)[0])
+        for order in DUP_ORDERS:
+            if n <= 9:
+                items.append({"kind": "sched", "names": names, "mode": "all", "kcut": 0, "order": order, "cost": 3 ** (n - 1)})
+            else:
+                items.append({"kind": "sched", "names": names, "mode": "cuts", "kcut": 2, "order": order, "cost": n ** 2})
+    # a long run of packets completed by ONE parser call (a backlog): 1500 packets back to back, the last one incomplete
+    items.append({"kind": "sched", "names": ["A7"] * 1500 + ["T3"], "mode": "cuts", "kcut": 0, "cost": 20000})
     for i, names in enumerate(straddle_stream_names()):
         n = len(build_stream(names)[0])
         for order in STRADDLE_ORDERS:
